@@ -780,6 +780,47 @@ func ruleVD7(c *Ctx) {
 					}
 				}
 			}
+			// ... and plan.PrunedIDs is the WHOLE result of the selection: the childless-epic rule was decided for exactly
+			// that set, so ids dropped (or added) afterwards leave an epic in the plan whose child is no longer in it
+			if okIDs {
+				sel := c.anchor("selectPruneTargets")
+				whole, why := true, ""
+				nOrig := 0
+				for _, bc := range callsTo(cb, bte) {
+					os, ok := fieldOrigins(bc.Common().Args[0], 0)
+					if !ok || len(os) == 0 {
+						whole, why = false, "origin of plan.PrunedIDs not followed"
+						break
+					}
+					for _, o := range os {
+						var leaves []ssa.Value
+						var walk func(v ssa.Value, d int)
+						walk = func(v ssa.Value, d int) {
+							v = resolve(v)
+							if ph, isPhi := v.(*ssa.Phi); isPhi && d < 6 {
+								for _, e := range ph.Edges {
+									walk(e, d+1)
+								}
+								return
+							}
+							leaves = append(leaves, v)
+						}
+						walk(o.V, 0)
+						for _, lv := range leaves {
+							nOrig++
+							if cl, isCall := lv.(*ssa.Call); isCall && calleeOf(&cl.Call) == sel {
+								continue
+							}
+							if k, isC := lv.(*ssa.Const); isC && k.IsNil() {
+								continue
+							}
+							whole, why = false, c.canon(lv)
+						}
+					}
+				}
+				c.check(whole && nOrig > 0, rn, "plan-is-the-selection", c.Pos(call.Pos()), "plan.PrunedIDs is the unmodified result of "+c.Name(sel),
+					"plan.PrunedIDs is not the whole result of the selection ("+why+"): ids are dropped or added after the childless-epic rule was applied to the set, so an epic can be pruned while a child of it stays")
+			}
 			c.check(okIDs, rn, "tombstones-are-the-plan", c.Pos(call.Pos()), "the tombstoned ids are plan.PrunedIDs, the same value that is returned and reported", "the ids written as tombstones are not plan.PrunedIDs: the report and the effect can differ")
 		}
 	}
